@@ -200,6 +200,7 @@ def build(reg):
 
     build_close(reg, common)
     build_receive(reg, common)
+    build_connection_made(reg, common)
 
 
 def build_close(reg, common):
@@ -704,3 +705,36 @@ def build_send(reg, common):
         ] + INV, "modifies": GHOST_FRAME,
             "hints": ["seq_slice_concat(payload, i, i + pfs)", "seq_slice_concat(payload, i, n)"]}},
         asserts="oblige", **common)
+
+
+def build_connection_made(reg, common):
+    """_connectionMade: a new connection starts CONNECTING with no close bookkeeping, no pending ping and exactly the
+    open-handshake timer armed (configured delay) -- or no timer at all when that timeout is switched off"""
+    OPEN_TIMER = ("(self.openHandshakeTimeoutCall is not None and self.openHandshakeTimeoutCall.active and "
+                  "self.openHandshakeTimeoutCall.delay == self.openHandshakeTimeout and self.openHandshakeTimeoutCall.kind == 1)")
+    # configuration attributes are copied from the factory unless set on the protocol object: which ones are set is
+    # irrelevant here, so the protocol and factory objects of this unit are declared open (further attributes may exist)
+    reg.mark_inline(P + ":TrafficStats.reset", P + ":TrafficStats.__init__", P + ":Timings.__init__")
+    reg.shape("WSFactoryOpen", fields=dict(reg.shapes["WSFactory"].fields), methods=dict(reg.shapes["WSFactory"].methods))
+    reg.shapes["WSFactoryOpen"].open_attrs = True
+    for shape, cls in (("WSServer", P + ":WebSocketServerProtocol"), ("WSClient", P + ":WebSocketClientProtocol")):
+        reg.shape(shape + "Open", cls=cls, fields=dict(reg.shapes[shape].fields, factory="obj:WSFactoryOpen"),
+                  methods=dict(reg.shapes[shape].methods, setTrackTimings="noop"))
+        reg.shapes[shape + "Open"].open_attrs = True
+        reg.contract(
+            WSP + "._connectionMade", name=WSP + "._connectionMade<%s>" % shape, props=["C17", "C05"],
+            params={"self": "obj:" + shape + "Open"},
+            requires=["self.factory.isServer == %s" % (shape == "WSServer")],
+            modifies=["self.*", "ghost.timers_armed"],
+            ensures=[
+                "self.state == 1 or self.state == 4", "self.send_state == 0 and self.data == b''",
+                "implies(self.openHandshakeTimeout > 0, %s)" % OPEN_TIMER,
+                "implies(not (self.openHandshakeTimeout > 0), self.openHandshakeTimeoutCall is None)",
+                "ghost.timers_armed == old(ghost.timers_armed) + (1 if self.openHandshakeTimeout > 0 else 0)",
+                "self.closeHandshakeTimeoutCall is None and self.autoPingTimeoutCall is None and self.autoPingPending is None "
+                "and self.autoPingPendingCall is None",
+                "not self.closedByMe and not self.failedByMe and not self.droppedByMe and not self.wasClean and "
+                "not self.wasOpenHandshakeTimeout and not self.wasCloseHandshakeTimeout and "
+                "not self.wasServerConnectionDropTimeout",
+                "ghost.frames_sent == old(ghost.frames_sent) and ghost.n_drop == old(ghost.n_drop)",
+            ], **common)
